@@ -253,6 +253,15 @@ def c14_networks(quick: bool):
     for bits in itertools.product((10, 100), repeat=7):
         nets.append(("grid", tuple(bits), (1,) * 7, ()))
     nets += [("ring",), ("deadend",), ("parallel",), ("grid", (10, 100, 40, 10, 100, 40, 10), (1, 1.5, 1, 1, 1.5, 1, 1), (1, 2))]
+    if not quick:
+        # three speed classes on every street (3^7 assignments) for both length patterns, and the two-speed assignments again
+        # with two one-way streets (the graph stays strongly connected)
+        for bits in itertools.product((10, 40, 100), repeat=7):
+            if 40 in bits:
+                nets.append(("grid", tuple(bits), (3, 1, 1, 3, 1, 3, 1), ()))
+                nets.append(("grid", tuple(bits), (1, 2, 1, 1, 1.5, 1, 2), ()))
+        for bits in itertools.product((10, 100), repeat=7):
+            nets.append(("grid", tuple(bits), (3, 1, 1, 3, 1, 3, 1), (1, 2)))
     return nets
 
 
